@@ -36,6 +36,12 @@ void use_flatset(FS &s, FS &o, const ElemNR &e, ElemNR &&r, const ElemNR *f, con
   (void)e; (void)r; (void)nh;
 }
 
+using FS8 = amc::FlatSet<ElemNR, GhostCmp, amc::allocator<ElemNR>, amc::Vector<ElemNR, amc::allocator<ElemNR>, uint8_t, amc::vec::DynamicGrowingPolicy, 0>>;
+void use_flatset8(FS8 &s) {
+  s.emplace(3);
+  s.emplace_hint(s.begin(), 3);
+}
+
 // SmallSet over a FixedCapacityVector (inline) and a std::set / FlatSet (large)
 using SS = amc::SmallSet<ElemNR, 4, GhostCmp, amc::allocator<ElemNR>, FS>;
 void use_smallset(SS &s, SS &o, const ElemNR &e, ElemNR &&r, const ElemNR *f, const ElemNR *l) {
